@@ -89,6 +89,9 @@ type Exec struct {
 	reqSeq map[string]int
 	Modular map[string]int
 	specCallRes *types.Tuple
+	typeAxioms []*Term
+	typeAxSeen map[*Term]bool
+	qVars      map[*Term]bool
 }
 
 func NewExec(pr *Program) *Exec {
@@ -127,7 +130,7 @@ func (x *Exec) requireSafe(s *State, safe *Term, what string, pos token.Pos) {
 		return
 	}
 	if x.specMode > 0 {
-		s.Assume(safe)
+		// contract expressions are total: partial operations keep SMT's total semantics, nothing is assumed
 		return
 	}
 	ps := s.Clone()
@@ -169,9 +172,8 @@ func (x *Exec) globalVar(s *State, v *types.Var, pos token.Pos) *Value {
 		return gv
 	}
 	var res *Value
-	if isErrorType(v.Type()) {
-		t := Var("errconst."+v.Pkg().Name()+"."+v.Name(), SInt)
-		res = &Value{K: KPrim, Typ: v.Type(), T: t}
+	if isErrorType(v.Type()) || implementsError(v.Type()) {
+		res = &Value{K: KPrim, Typ: v.Type(), T: x.Pr.ErrConst(v.Pkg().Path() + "." + v.Name())}
 		globalMemo[v] = res
 		return res
 	}
@@ -238,6 +240,7 @@ func (x *Exec) assumeShapeFacts(s *State, v *Value) {
 	case KSlice:
 		if v.Len.S == SInt {
 			s.Assume(Ge(v.Len, Zero))
+			x.sliceTypeAxioms(v)
 		}
 	case KStruct, KTuple:
 		for _, f := range v.Fields {
@@ -327,7 +330,11 @@ func (x *Exec) execBlock(s *State, stmts []ast.Stmt) *State {
 	return s
 }
 
+// Progress describes what the engine is doing (printed by the watchdog).
+var Progress string
+
 func (x *Exec) execStmt(s *State, st ast.Stmt) *State {
+	Progress = "exec " + x.Pr.Pos(st.Pos())
 	x.steps++
 	if x.steps > 400000 {
 		x.fail(st.Pos(), "step budget exceeded")
@@ -550,7 +557,7 @@ func (x *Exec) mergeMany(states []*State) *State {
 			acc = st
 			continue
 		}
-		acc = mergeStates(st.PC, st, acc)
+		acc = mergeStates(relCond(st.PC, acc.PC), st, acc)
 	}
 	return acc
 }
@@ -900,4 +907,64 @@ func basicKindName(t types.Type) string {
 		return b.Name()
 	}
 	return strings.ReplaceAll(t.String(), " ", "")
+}
+
+// sliceTypeAxioms records, as quantified axioms (used only in phase 2 of solving), that every element of a
+// slice of machine integers lies in the range of its Go type. This is a typing fact, not an assumption about the program.
+func (x *Exec) sliceTypeAxioms(v *Value) {
+	if v.Conc != nil || v.Elem == nil {
+		return
+	}
+	if x.typeAxSeen == nil {
+		x.typeAxSeen = map[*Term]bool{}
+	}
+	add := func(leaf *Value) {
+		if leaf.K != KPrim || leaf.Typ == nil || leaf.T.S != SArr(SInt, SInt) {
+			return
+		}
+		if x.typeAxSeen[leaf.T] {
+			return
+		}
+		i := Var("tyax.i", SInt)
+		f := rangeFact(leaf.Typ, Select(leaf.T, i))
+		if f.Op == "true" {
+			return
+		}
+		x.typeAxSeen[leaf.T] = true
+		bs := []*Term{i}
+		// quantifier-bound variables of contract expressions occurring in the array term are generalised too
+		seen := map[*Term]bool{}
+		var walk func(t *Term)
+		walk = func(t *Term) {
+			if seen[t] {
+				return
+			}
+			seen[t] = true
+			if x.qVars[t] {
+				bs = append(bs, t)
+			}
+			for _, a := range t.Args {
+				walk(a)
+			}
+		}
+		walk(leaf.T)
+		x.typeAxioms = append(x.typeAxioms, Forall(bs, f))
+	}
+	switch v.Elem.K {
+	case KPrim:
+		add(v.Elem)
+	case KStruct:
+		for _, f := range v.Elem.Fields {
+			add(f)
+		}
+	}
+}
+
+var errorIface = types.Universe.Lookup("error").Type().Underlying().(*types.Interface)
+
+func implementsError(t types.Type) bool {
+	if _, ok := t.Underlying().(*types.Interface); ok {
+		return false
+	}
+	return types.Implements(t, errorIface)
 }
